@@ -265,6 +265,10 @@ func (p *PX) term(v ssa.Value, fr *pxFrame, st *pxState) *Term {
 				}
 			}
 			if ia, ok := x.X.(*ssa.IndexAddr); ok {
+				// element of a package-level lookup table that is constant after initialisation
+				if t := p.tableLoad(ia, v.Type(), fr, st); t != nil {
+					return t
+				}
 				// element of a symbolic byte sequence
 				if bs := p.byteSeqOf(ia.X, fr, st); bs != nil {
 					if it := p.term(ia.Index, fr, st); it.K == TConst && it.C.IsInt64() {
@@ -647,6 +651,16 @@ func (p *PX) instrs(fr *pxFrame, b *ssa.BasicBlock, from int, st *pxState, k pxC
 			p.cur, p.curFrame = st, fr
 			te, tok := p.f.refine(st.env, c, true)
 			fe, fok := p.f.refine(st.env, c, false)
+			if tte, tfe, isTab := p.tableCond(c, st.env); isTab {
+				// `if table[i]` on a constant boolean table: facts about the index
+				te, tok, fe, fok = tte, tte != nil, tfe, tfe != nil
+				if !tok {
+					te = st.env
+				}
+				if !fok {
+					fe = st.env
+				}
+			}
 			if isNil, known := p.nilTest(c); known {
 				// `err != nil` on a value the path built with a constructor that never returns nil
 				tok, fok = tok && isNil, fok && !isNil
